@@ -6,10 +6,11 @@ sys.path.insert(0, os.path.join(V, 'lib'))
 from props_table import PROPS
 old = json.load(open(os.path.join(V, 'MANIFEST.json')))
 text = {c['property_id']: c['level_claimed']['text'] for c in old['checks']}
-eng = {"L": "hdw-mc", "P": "hdw-cli-mc", "loom": "hdw-loom"}
+eng = {"L": "hdw-mc", "P": "hdw-cli-mc", "loom": "hdw-loom", "libloom": "hdw-libloom"}
 tech = {"model_checking": "explicit-state model checking (stateright BFS over a history space, every state executed on the real code)",
         "fault_enumeration": "exhaustive fault-script enumeration at the entropy boundary (owned environment, incl. loom schedules of the real search) with a reference model oracle",
         "exploration": "bounded exhaustive enumeration of input shapes (iterative deviation bounding) against a reference model"}
+HIST = {"C01", "C02", "C03", "C04", "C05", "C06", "C08", "C09", "C10", "C14", "C15", "C20"}
 checks = []
 for pid in sorted(PROPS):
     info = PROPS[pid]
@@ -17,8 +18,12 @@ for pid in sorted(PROPS):
                    "replay_cmd_template": f"./check {pid} --replay {{path}}", "engine": "+".join(eng[l] for l in info['layers']),
                    "level_claimed": {"category": info['level'], "text": text[pid], "design_ref": f"DESIGN.md section 4 ({pid})"},
                    "level_note": "; ".join(info['assumptions']),
-                   "technique": "stateless model checking of the real code (loom DPOR, bounded preemptions) + bounded exhaustive input enumeration" if pid == "C18" else tech[info['level']]})
+                   "technique": ("stateless model checking of the real code (loom DPOR, bounded preemptions) + bounded exhaustive input enumeration" if pid == "C18" else tech[info['level']])
+                                + (" + exhaustive operation sequences up to depth 3-4 on one thread against the reference (non-initial states)" if pid in HIST else "")
+                                + (" + stateless model checking of concurrent calls into the real library (loom DPOR, bounded preemptions, library compiled unmodified against a loom-backed std)" if "libloom" in info['layers'] else "")})
 old['checks'] = checks
+if not any(e['name'] == 'hdw-libloom' for e in old['engines']):
+    old['engines'].insert(3, {'name': 'hdw-libloom', 'path': 'mcloom/lib-loom', 'serves_properties': [], 'kind_free_text': 'loom DPOR schedule exploration of 2-3 threads calling the real library, which is compiled unmodified (mcloom/hdwallet-loomed/src -> /repo/src) against mcloom/loomstd, a std whose thread / sync are loom-backed and const-constructible, with statics reset before every execution (E3)'})
 for e in old['engines']:
     for l, n in eng.items():
         if e['name'] == n: e['serves_properties'] = sorted(p for p in PROPS if l in PROPS[p]['layers'])
